@@ -19,6 +19,8 @@ pub struct Stats {
     pub below_k: AtomicU64,
     pub calls_with_duplicates: AtomicU64,
     pub flood_undecodable: AtomicU64,
+    /// arrival orders in which two or more consecutive prefixes of >= K symbols were undecodable
+    pub stubborn_orders: AtomicU64,
 }
 
 /// (binary rank, full rank, L) of the constraint matrix of the received set
@@ -96,6 +98,9 @@ pub fn pick_k(rng: &mut Rng, family: u64, kmax: usize) -> usize {
 /// the symbols that complete the rank. The rank oracle decides every prefix as usual.
 pub fn gen_flood_case(seed: u64, idx: u64) -> Case {
     let mut rng = Rng::derive(seed, 0x0212, idx);
+    if rng.chance(1, 3) {
+        return gen_stubborn_case(seed, idx);
+    }
     let K = *rng.pick(&[1usize, 3, 7, 9, 10, 11, 12, 18, 20, 26]);
     let p = rm::params(K);
     // group repair ESIs by their LT row (as a set of intermediate-symbol indices)
@@ -130,6 +135,58 @@ pub fn gen_flood_case(seed: u64, idx: u64) -> Case {
     }
     let batch_first = if rng.chance(1, 2) { flood.max(1) } else { 1 };
     Case { K, T: rng.range(1, 3) as usize, threshold: *rng.pick(&[0u32, 250, u32::MAX]), data_seed: rng.next(), arrivals, batch_first }
+}
+
+/// Hostile family "stubborn": an arrival order whose prefixes of K, K+1, ... K+m distinct symbols (m = 1..4)
+/// are ALL rank deficient (each found by rejection sampling with the reference rank oracle; a random
+/// K-subset is deficient about once in 170 tries, a further symbol keeps it deficient about once in 256),
+/// followed by ordinary repair symbols. A decoder whose attempt schedule depends on earlier failures
+/// (back-off, retry gating) answers late on exactly these orders.
+pub fn gen_stubborn_case(seed: u64, idx: u64) -> Case {
+    static GF: std::sync::OnceLock<Gf> = std::sync::OnceLock::new();
+    let gf = GF.get_or_init(Gf::new);
+    let mut rng = Rng::derive(seed, 0x0213, idx);
+    let K = *rng.pick(&[2usize, 3, 5, 7, 9, 10, 11, 12, 16, 20, 26, 30]);
+    let mut arrivals: Vec<u32> = vec![];
+    let mut used: HashSet<u32> = HashSet::new();
+    for _ in 0..3000 {
+        arrivals.clear();
+        used.clear();
+        let kept = rng.below(K as u64) as usize;
+        let mut src: Vec<u32> = (0..K as u32).collect();
+        rng.shuffle(&mut src);
+        for &e in &src[..kept] {
+            used.insert(e);
+            arrivals.push(e);
+        }
+        while arrivals.len() < K {
+            let e = rand_repair(&mut rng, K, &used);
+            used.insert(e);
+            arrivals.push(e);
+        }
+        if !decodable(gf, K, &used) {
+            break;
+        }
+    }
+    rng.shuffle(&mut arrivals);
+    let m = rng.range(1, 4);
+    for _ in 0..m {
+        for _ in 0..5000 {
+            let e = rand_repair(&mut rng, K, &used);
+            used.insert(e);
+            if !decodable(gf, K, &used) {
+                arrivals.push(e);
+                break;
+            }
+            used.remove(&e);
+        }
+    }
+    for _ in 0..12 {
+        let e = rand_repair(&mut rng, K, &used);
+        used.insert(e);
+        arrivals.push(e);
+    }
+    Case { K, T: rng.range(1, 3) as usize, threshold: *rng.pick(&[0u32, 250, u32::MAX]), data_seed: rng.next(), arrivals, batch_first: 1 }
 }
 
 pub const SWEEP_BASE: u64 = 1 << 40;
@@ -338,6 +395,7 @@ pub fn run_case(ctx: &Ctx, gf: &Gf, c: &Case, replay: J, st: &Stats) {
         }
         format!("K={K} T={} thr={} batch={} arr={:016x}", c.T, c.threshold, c.batch_first, h.get())
     };
+    let mut undecodable_run = 0u32;
     while i < c.arrivals.len() {
         let n = if i == 0 { c.batch_first.max(1).min(c.arrivals.len()) } else { 1 };
         let chunk: Vec<u32> = c.arrivals[i..(i + n).min(c.arrivals.len())].to_vec();
@@ -409,6 +467,10 @@ pub fn run_case(ctx: &Ctx, gf: &Gf, c: &Case, replay: J, st: &Stats) {
             }
             if !want {
                 st.undecodable_ge_k.fetch_add(1, Relaxed);
+                undecodable_run += 1;
+                if undecodable_run == 2 {
+                    st.stubborn_orders.fetch_add(1, Relaxed);
+                }
             } else if have.len() == K {
                 st.decodable_at_exactly_k.fetch_add(1, Relaxed);
             }
@@ -541,9 +603,10 @@ pub fn run(ctx: &Ctx) -> i32 {
     ctx.floor("truly_undecodable_prefixes_with_at_least_K_symbols", st.undecodable_ge_k.load(Relaxed), if q { 50 } else { 1 });
     ctx.floor("sets_where_gf2_only_attempt_must_fall_back_to_the_full_solve", st.fallback_cases.load(Relaxed), if q { 50 } else { 1 });
     ctx.floor("undecodable_prefixes_holding_at_least_L_symbols_(flood_of_dependent_symbols)", st.flood_undecodable.load(Relaxed), if q { 50 } else { 0 });
+    ctx.floor("arrival_orders_with_two_or_more_consecutive_undecodable_prefixes_of_at_least_K_symbols_(stubborn_family)", st.stubborn_orders.load(Relaxed), if q { 40 } else { 0 });
     ctx.floor("prefix_decisions", st.decisions.load(Relaxed), if q { 10000 } else { 10 });
     ctx.finish(
-        "arrival sequences of distinct encoder-produced symbols aimed at the decision boundary: 0..K-1 surviving source symbols + repair ESIs (small, uniform over [K,2^24), top of range) up to exactly K symbols, then extras one by one; one third of the cases start with one batch of K+H..K+H+3 symbols (reaches the GF(2)-only attempt; sets whose binary rows are rank deficient while the full matrix has rank L are counted as fallback cases); one case in 40 floods the decoder with L..L+11 repair symbols taken from at most 6 classes of ESIs with identical LT rows (rank far below L however many arrive) before the symbols that complete the rank; K in 1..60, random Table-2 K' and K'+-1 up to kmax, uniform up to kmax, 60 000 / 1 200 000 sets of a small block (K' <= 42) made only of repair symbols of LT degree >= 4 (so that the first solver phase meets rows with r >= 4), 40 000 / 800 000 over-provisioned sets (K-1..K-3 source symbols and (K'-K+1)+2H+1.. repair symbols in one call), plus one sweep over every Table-2 row up to sweep_kmax (every 5th row above, up to sweep_kmax2) with K = K' and K = K'-1 / previous K'+1 and 1-3 lost source symbols; T 1..4; sparse threshold {0,250,inf}. After EVERY call: Some iff (all source present or rank over GF(256) of [LDPC; HDPC; LT rows of received+padding ISIs] = L) computed by the independent reference model; Some implies the right bytes. non-trivial = prefix with >= K distinct symbols and not all-source; distinct by (K, ESI set)",
+        "arrival sequences of distinct encoder-produced symbols aimed at the decision boundary: 0..K-1 surviving source symbols + repair ESIs (small, uniform over [K,2^24), top of range) up to exactly K symbols, then extras one by one; one third of the cases start with one batch of K+H..K+H+3 symbols (reaches the GF(2)-only attempt; sets whose binary rows are rank deficient while the full matrix has rank L are counted as fallback cases); one case in 40 floods the decoder with L..L+11 repair symbols taken from at most 6 classes of ESIs with identical LT rows (rank far below L however many arrive) before the symbols that complete the rank, or (one flood case in three) is a 'stubborn' order whose prefixes of K, K+1, .. K+m symbols (m = 1..4) are all rank deficient, built by rejection sampling with the rank oracle; K in 1..60, random Table-2 K' and K'+-1 up to kmax, uniform up to kmax, 60 000 / 1 200 000 sets of a small block (K' <= 42) made only of repair symbols of LT degree >= 4 (so that the first solver phase meets rows with r >= 4), 40 000 / 800 000 over-provisioned sets (K-1..K-3 source symbols and (K'-K+1)+2H+1.. repair symbols in one call), plus one sweep over every Table-2 row up to sweep_kmax (every 5th row above, up to sweep_kmax2) with K = K' and K = K'-1 / previous K'+1 and 1-3 lost source symbols; T 1..4; sparse threshold {0,250,inf}. After EVERY call: Some iff (all source present or rank over GF(256) of [LDPC; HDPC; LT rows of received+padding ISIs] = L) computed by the independent reference model; Some implies the right bytes. non-trivial = prefix with >= K distinct symbols and not all-source; distinct by (K, ESI set)",
         &["rank oracle = harness's independent model of RFC 6330 5.3.3.3 / 5.3.5 (golden tables; GF(2) elimination on bitsets then GF(256) elimination of the HDPC residual)", "symbol payloads are those of the crate's encoder (whose RFC conformance is C04's business)"],
         vec![],
     )
